@@ -19,7 +19,7 @@ CHECKS["C16"] = ("vcheck", "proptest generators (names, text, related pairs/trip
     "Trusts vmodel::name (unit-tested on the RFC 4034 §6.1 ordering example).", "§4 C16")
 
 CHECKS["C15"] = ("vcheck", "proptest message generator + byte mutator driving random reader call sequences, differential against a cursor model over an independent decoder",
-    "Generated search with shrinking: messages with compressed owners/RDATA of every known type, mutated by truncation, count changes, flips, insertions, injected pointers; up to 30 reader calls per message (read/skip question and RR, peek with owner/skip/parse/drop, mark/rewind, at_eom); after every call the read position, the returned fields and acceptance are compared with the model.",
+    "Generated search with shrinking: messages with compressed owners/RDATA of every known type, mutated by truncation, count changes, flips, insertions, injected pointers; up to 30 reader calls per message (read/skip question and RR, peek with owner/skip/parse/drop, mark/rewind, at_eom), also over hand-laid-out messages whose records share owner octets that are valid only at the later position; after every call the read position, the returned fields and acceptance are compared with the model.",
     "Trusts vmodel::wire/rdata. OPT TTL: raw or RFC 2181-clamped value accepted here (C09/C12 pin it).", "§4 C15")
 CHECKS["C18"] = ("vcheck", "proptest RDATA generators (valid, near-valid, arbitrary) for every known class/type, differential against RFC-derived validators and decoder, write->read round trip in all compression modes",
     "Generated search with shrinking over three sub-checks: validate acceptance, Rdata::read with cursor/RDLENGTH perturbations against the independent decoder, and Writer->Reader round trip checked by both quandary's reader and the independent decoder (also in messages beyond 16 KiB whose owner starts 0-48 octets before offset 16384 and shares a suffix with an RDATA name).",
@@ -29,7 +29,7 @@ CHECKS["C19"] = ("vcheck", "proptest families of related RDATA; all ordered pair
     "Trusts vmodel::rdata::equal.", "§4 C19")
 
 _W = ("vcheck", "model-based stateful testing: proptest operation sequences over every Writer method, every prefix finished and decoded by an independent decoder and compared with a model message",
-    "Generated search with shrinking over operation sequences; each prefix is run on a fresh writer, so the check sees the message after every operation, knows the exact write position (for the no-spurious-truncation and limit obligations) and can assert that a failed operation changed nothing. TSIG MACs are recomputed with the independent RFC 8945 composition.",
+    "Generated search with shrinking over operation sequences; each prefix is run on a fresh writer, so the check sees the message after every operation, knows the exact write position (for the no-spurious-truncation and limit obligations) and can assert that a failed operation changed nothing. TSIG MACs are recomputed with the independent RFC 8945 composition. Sub-check writer-count-limits: single add_*_rrset calls of 65,532-65,540 records into 2 MiB buffers (the 16-bit section counts at their limit).",
     "Trusts vmodel::wire/rdata/tsig; hints are used only as the documented contract allows.", "§4 C12")
 CHECKS["C12"] = _W
 CHECKS["C13"] = ("vcheck", "same operation-sequence generator as C12; invariant over the independent decoder's pointer log of every finished prefix",
@@ -90,10 +90,10 @@ CHECKS["C27"] = ("vcheck", "proptest pairs of requests against a fresh limiter w
     "32-bit name-hash collisions ignored; pairs taking > 0.5 s retried.", "§4 C27")
 
 CHECKS["C23"] = ("vcheck", "round-trip against an independent pretty-printer: proptest record lists rendered with generated presentation choices (choice tape, shrinks to the plainest form); the expected parse is the generating list",
-    "Generated search with shrinking; 25 presentation features counted in classes; line numbers, owners, TTLs, classes, types and RDATA octets compared record by record.",
+    "Generated search with shrinking; 25 presentation features counted in classes; line numbers, owners, TTLs, classes, types and RDATA octets compared record by record; sub-check parser-short-reads delivers valid files in generated read sizes and must see the same records.",
     "Trusts vmodel::zonefile (printer emits only single-reading text; unit-tested) and RFC 1035 §3.4.2 bit order for WKS (known finding).", "§4 C23")
-CHECKS["C24"] = ("vcheck", "proptest token soups, random bytes and mutated valid zone files; validity predicate over everything the parser yields; watchdog for termination",
-    "Generated search with shrinking; no panic, nothing after the first error, every yielded record valid for its class/type under the independent validators (incl. TXT records whose RDATA ends within 3 octets of 65,535); a case running > 60 s is re-run in a fresh process and reported as non-termination only if it stalls again.",
+CHECKS["C24"] = ("vcheck", "proptest token soups, random bytes and mutated valid zone files; validity predicate over everything the parser yields; watchdog for termination; the same inputs again through a Read stream with generated read sizes and an injected read failure",
+    "Generated search with shrinking; no panic, nothing after the first error, every yielded record valid for its class/type under the independent validators (incl. TXT records whose RDATA ends within 3 octets of 65,535); sub-check parser-short-reads: what is yielded does not depend on read sizes, and after a reported read failure (any io::ErrorKind) nothing more is yielded; a case running > 60 s is re-run in a fresh process and reported as non-termination only if it stalls again.",
     "Trusts vmodel::rdata::validate.", "§4 C24")
 
 CHECKS["C25"] = ("vcheck", "proptest trees of zone files written to a scratch directory; round-trip against the generating record list with (path, line) plus a metamorphic relation: fs::Parser over the tree = in-memory Parser over the textual flattening",
@@ -112,11 +112,11 @@ CHECKS["C32"] = ("qshuttle", "randomised schedule exploration (shuttle random + 
     _Q + " TSIG times use the real clock with a one-hour fudge. As for C28, an OS-thread stress on the normal build (vcheck C32S: 2-8 query threads against a swapper installing 3-200 generations, same bracket oracle) runs first in both tiers and is folded into the same evidence file.", "§4 C32")
 
 CHECKS["C30"] = ("vcheck", "proptest batches of framed requests (valid, malformed, response-less) cut into generated segments with generated pauses and pipelined over loopback TCP, plus UDP datagrams from two client sockets, against running blocking and Tokio providers in five configurations; differential against handle_message on an identically configured twin server",
-    "Generated search with shrinking; TCP: responses in request order, framed, octet-equal to the twin's, nothing extra, connection closed after the first response-less request (or after the client's EOF), also for batches ending in an incomplete frame; UDP: at most one datagram per request, equal to the twin's, from the server's address, to the socket that asked, not larger than the payload size. Sub-check io-large-requests: 1-3 TCP requests padded to 508-65535 octets at the lengths around powers of two, half of the cases on the Tokio provider; io-backpressure: hundreds of pipelined requests with large answers while the client does not read.",
+    "Generated search with shrinking; TCP: responses in request order, framed, octet-equal to the twin's, nothing extra, connection closed after the first response-less request (or after the client's EOF), also for batches ending in an incomplete frame; UDP: at most one datagram per request, equal to the twin's, from the server's address, to the socket that asked, not larger than the payload size. Sub-check io-large-requests: 1-3 TCP requests padded to 508-65535 octets at the lengths around powers of two, half of the cases on the Tokio provider; io-slow-clients: 2-3 requests per connection that take up to 3.5 s each to arrive (inside the 5 s read timeout) must all be answered; io-backpressure: hundreds of pipelined requests with large answers while the client does not read.",
     "OS thread scheduling is not owned (segmentation, pipelining and pauses are). Client-side timeouts (3 s; the server's read timeout is 5 s) are retried on a fresh connection and reported only after three failures in a row; a close with unread pipelined data behind it (kernel RST may discard earlier responses) is counted, not judged; TSIG time-signed of unsigned error responses may differ by 5 s.", "§4 C30")
 
 CHECKS["C31"] = ("vcheck", "model-based stateful testing against the real daemon: proptest histories of configuration and zone-file edits over five nested zones with SIGHUP after each step; oracle = reference model 'latest good data per zone' compared through UDP probes whose answers identify zone and version",
-    "Generated search with shrinking over histories of 1-8 steps (per zone: configured or not x keep / new valid version, every third one with validation warnings only / touch / syntactically broken / fails validation, alone or together with warnings / deleted / renamed; generated order of the zones in the configuration; blocking and Tokio providers); 15 probes per step (apex, www, nonexistent name of every zone) judged for REFUSED / SERVFAIL / data of (zone, version) / negative answer of the enclosing (zone, version).",
+    "Generated search with shrinking over histories of 1-8 steps (per zone: configured or not x keep / new valid version, every third one with validation warnings only / touch / syntactically broken / fails validation, alone or together with warnings / deleted / renamed / main file that $INCLUDEs another file, which is repaired or removed on its own; generated order of the zones in the configuration; blocking and Tokio providers); 15 probes per step (apex, www, nonexistent name of every zone) judged for REFUSED / SERVFAIL / data of (zone, version) / negative answer of the enclosing (zone, version).",
     "quandaryd is built from /repo's working tree into /verif/.target-daemon and run as a child process on a loopback port; a sentinel zone whose TXT carries the step number tells when the atomically swapped catalog is live; modification times are set explicitly and strictly increase with every write; a daemon that does not come up or never shows the sentinel is exit 2, not a violation.", "§4 C31")
 
 NOT_YET = {}
